@@ -379,7 +379,7 @@ def run(ctx):
     for c in concretisations(thorough):
         ad = PotAdapter(L, c, terms, ctx)
         w = Walker(ctx, g, ad, 'replay.potential.%s' % c.name)
-        ne = w.cover_edges()
+        ne = w.cover_edges()      # the adapter itself evaluates before every parameter change (step)
         npaths, complete = w.all_paths(3, budget=400000 if thorough else 60000)
         nr = w.random_walks(400 if thorough else 60, 8, ctx.seed)
         ctx.stage('replay.potential', concretisation=c.describe(), graph_states=len(g.state), graph_edges=g.n_edges,
